@@ -589,7 +589,8 @@ class Interp:
             return v
         if isinstance(v, tuple):
             return tuple(self.memo_key(x) for x in v)
-        if isinstance(v, type) or type(v).__module__ in ('pathlib', 'datetime', 'fractions', 'decimal', 'uuid'):
+        if isinstance(v, type) or type(v).__module__ in ('pathlib', 'datetime', 'fractions', 'decimal', 'uuid') \
+                or any(c.__module__ == 'pathlib' for c in type(v).__mro__):
             return v  # concrete values of the standard library compare and hash as in Python
         if isinstance(v, FuncRef):
             return ('function', v.fi.fq, id(v.bound) if v.bound is not None else None)
